@@ -238,4 +238,55 @@ Proof.
   - exfalso. pose proof (chain_after_disjoint _ Hc j i z x Hgt Hj Hi). apply Hxz. right. lia.
 Qed.
 
+(* duplicates allowed: a token from which every other token is apart (or which it equals) is kept *)
+Lemma inner_keeps_untouched (c : tok) : forall rest mid n,
+  In n (mid ++ rest) -> tcontains c n = false -> overlap c n = false -> In n (snd (fo_inner c mid rest)).
+Proof.
+  induction rest as [|a rest IH]; intros mid n Hn Hc Ho; simpl.
+  - rewrite app_nil_r in Hn. exact Hn.
+  - destruct (is_after a c); [exact Hn|].
+    assert (Hskip : In n (mid ++ rest) \/ n = a).
+    { apply in_app_or in Hn as [Hn|[->|Hn]]; [left; apply in_or_app; left; exact Hn | right; reflexivity | left; apply in_or_app; right; exact Hn]. }
+    destruct (tcontains c a) eqn:Ec.
+    + destruct Hskip as [H| ->]; [apply IH; assumption | congruence].
+    + destruct (overlap c a) eqn:Eo.
+      * destruct (tok_len a <=? tok_len c); [|exact Hn].
+        destruct Hskip as [H| ->]; [apply IH; assumption | congruence].
+      * apply IH; [|assumption|assumption]. rewrite <- app_assoc. exact Hn.
+Qed.
+
+Lemma outer_keeps_apart (x : tok) : wf_tok x -> forall fuel toks, (length toks <= fuel)%nat -> In x toks ->
+  (forall y, In y toks -> y = x \/ (wf_tok y /\ apart x y)) -> In x (fo_outer fuel toks).
+Proof.
+  intros Hx. induction fuel as [|f IH]; intros toks Hl Hin Hall.
+  - destruct toks; [destruct Hin | simpl in Hl; lia].
+  - cbn [fo_outer]. destruct toks as [|c [|n rest]]; [destruct Hin | exact Hin |].
+    pose proof (inner_length c (n :: rest) []) as Hlen.
+    assert (Hsub : forall y, In y (snd (fo_inner c [] (n :: rest))) -> In y (n :: rest)).
+    { intros y Hy. destruct (inner_mid_prefix c (n :: rest) []) as [q [E I]]. rewrite E in Hy. apply I. exact Hy. }
+    destruct (Hall c (or_introl eq_refl)) as [->|[Hwc Hac]].
+    + (* the current token is (a copy of) x: it is kept *)
+      assert (Hk : fst (fo_inner x [] (n :: rest)) = true).
+      { apply inner_current_kept. intros m Hm Hov.
+        destruct (Hall m (or_intror Hm)) as [->|[Hwm Ham]].
+        - left. unfold tcontains. lia.
+        - exfalso. unfold overlap, apart, wf_tok in *. lia. }
+      destruct (fo_inner x [] (n :: rest)) as [keep rem]. simpl in Hk. subst keep. left; reflexivity.
+    + assert (Hxr : In x (n :: rest)).
+      { destruct Hin as [->|H]; [|exact H]. exfalso. unfold apart, wf_tok in *. lia. }
+      assert (Hx' : In x (snd (fo_inner c [] (n :: rest)))).
+      { apply inner_keeps_untouched; [exact Hxr | |]; unfold tcontains, overlap, apart, wf_tok in *; lia. }
+      destruct (fo_inner c [] (n :: rest)) as [keep rem]. cbn [snd] in *.
+      assert (Hrec : In x (fo_outer f rem)).
+      { apply IH; [simpl in Hl, Hlen; lia | exact Hx' |]. intros y Hy. apply Hall. right. apply Hsub. exact Hy. }
+      destruct keep; [right; exact Hrec | exact Hrec].
+Qed.
+
+Theorem fo_keeps_apart (x : tok) l : wf_tok x -> In x l ->
+  (forall y, In y l -> y = x \/ (wf_tok y /\ apart x y)) -> In x (filter_overlapping l).
+Proof.
+  intros Hx Hin Hall. unfold filter_overlapping. apply outer_keeps_apart; [exact Hx | lia | apply sort_tokens_in; exact Hin |].
+  intros y Hy. apply Hall. apply sort_tokens_in. exact Hy.
+Qed.
+
 End Rules.
